@@ -7,6 +7,7 @@
 use std::sync::atomic::{AtomicU64, Ordering};
 use std::sync::{Arc, Mutex as StdMutex};
 
+use arrrg::CommandLine;
 use shuttle::thread;
 use sst::log::{ConcurrentLogBuilder, WriteBatch};
 use sst::Builder;
@@ -83,7 +84,24 @@ pub fn concurrent_log(seed: u64, worker: usize, slot: &Slot, with_fault: bool) {
         None
     };
     fsx::install(&dir, fault);
-    let log = match ConcurrentLogBuilder::new(sst::LogOptions::default(), dir.join("c.log")) {
+    // Drawn from a stream of its own (the other draws stay what they were): the size of the
+    // log's write buffer, and whether the threads start a few dozen bytes before a 1 MiB block
+    // boundary, so that their batches are split into two fragments (seeded change C12-f: the tail
+    // fragment of a split batch left in a small write buffer when the append returns).
+    let mut xr = Rng::new(crate::rng::mix(&[seed, 0x7762_7566]));
+    // (only without an injected fault: with a write buffer smaller than a frame a failed write
+    // leaves half a frame in the file, and whoever keeps appending to that builder afterwards is
+    // acknowledged behind it; C12 does not quantify over I/O errors and the store above poisons
+    // itself at the first log error, so that is noted in DESIGN.md and not judged here)
+    let wbuf = if with_fault { xr.pick(&[0usize]); 0 } else { *xr.pick(&[0usize, 0, 64, 4096]) };
+    let near_boundary = !with_fault && xr.chance(1, 4);
+    let gap = xr.range(20, 400);
+    let options = if wbuf > 0 {
+        sst::LogOptions::from_arguments_relaxed("logc", &["--write-buffer", &wbuf.to_string()]).0
+    } else {
+        sst::LogOptions::default()
+    };
+    let log = match ConcurrentLogBuilder::new(options, dir.join("c.log")) {
         Ok(l) => Arc::new(l),
         Err(e) => {
             let _ = fsx::uninstall();
@@ -94,6 +112,38 @@ pub fn concurrent_log(seed: u64, worker: usize, slot: &Slot, with_fault: bool) {
     let acked: Arc<StdMutex<Vec<Vec<Vec<u8>>>>> = Arc::new(StdMutex::new(Vec::new()));
     let failed = Arc::new(AtomicU64::new(0));
     let problem: Arc<StdMutex<Option<(String, String)>>> = Arc::new(StdMutex::new(None));
+    if near_boundary {
+        // two filler batches bring the end of the file to `gap` bytes (give or take a varint)
+        // before the first block boundary
+        let file_len = || durable_image(&fsx::trace_since(0)).1.len() as u64;
+        let block = 1u64 << 20;
+        let mut fill = |n: usize, target_end: u64| {
+            let start = file_len();
+            let mut wb = WriteBatch::default();
+            let mut keys = Vec::new();
+            let mut e = 0;
+            loop {
+                let key = format!("fill{n}e{e}").into_bytes();
+                let room = target_end.saturating_sub(start + wb.approximate_size() as u64 + 24);
+                if room < 64 {
+                    break;
+                }
+                let vlen = (room - 40).min(32_000) as usize;
+                wb.put(&key, 1 + e as u64, &vec![b'f'; vlen]).expect("filler entry");
+                keys.push(key);
+                e += 1;
+            }
+            if keys.is_empty() {
+                return;
+            }
+            match log.append(wb) {
+                Ok(()) => acked.lock().unwrap().push(keys),
+                Err(e) => violation("append-failed-without-fault", format!("filler batch: {e}")),
+            }
+        };
+        fill(0, block - 8192);
+        fill(1, block - gap);
+    }
     let mut handles = Vec::new();
     for t in 0..n_t {
         let log = Arc::clone(&log);
